@@ -407,3 +407,25 @@ def shard(S, p):
     check_L_write(S, p)
     check_S(S, p)
     check_S_output_path(S, p)
+
+
+def post(total, tier, seed):
+    """Thorough: 200 sampled chunk schedules / fault offsets under Miri (dependency `unsafe` reached through odd chunkings)."""
+    if tier != "thorough" and not os.environ.get("VERIF_SANITIZERS"):
+        return {"sanitizers": {"miri": "not run in quick tier"}}
+    from .. import sanitize
+    rng = rng_for(seed, "c18-miri")
+    reqs = []
+    for fmt in FORMATS:
+        cs = G.random_callset(rng, nsamples=2, nrecords=3, p_missing=0.2, p_multi=0, extras=False)
+        data = E.encode(cs, fmt, rng, layout="unit" if fmt in ("vcf.gz", "bcf") else None)
+        for _ in range(30):
+            reqs.append(E.l2_request(data, None, threads=rng.choice([1, 2]), chunks=[rng.randint(1, len(data))] + [rng.randint(1, 64) for _ in range(6)], rest=rng.choice([1, 7, 64])))
+        for _ in range(10):
+            reqs.append(E.l2_request(data, None, fail_at=rng.randrange(len(data)), fail_kind=rng.choice(KINDS), rest=rng.choice([1, 16])))
+    shape = [2, 3]
+    npy = GS.npy_bytes(shape, [1, 2, 3, 4, 5, 6], "<i4")
+    for first in range(1, len(npy), 4):
+        reqs.append({"op": "read_npy", "data": npy.hex(), "chunks": [first], "rest": 3})
+    native = harness.run_all([dict(r) for r in reqs])
+    return {"sanitizers": {"miri": sanitize.miri_pass(total, reqs, "schedules", "C18", expect=native)}}
